@@ -7,12 +7,13 @@ META = {
     "engine": "kcp",
     "technique": "Coq totality + invariant proof with Go panics modelled as values, for arbitrary byte strings; differential replay on malformed streams under recover()",
     "level_text": "Every model function returns Panic wherever the Go code would fault on a slice bound (pool buffers of mtuLimit bytes, the 3*(mtu+24) staging buffer). Theorem: at every reachable state Input of ANY byte list of ANY length returns Ok, keeps the invariant (hence the C04 buffering bounds, each stored segment <= mtuLimit bytes) and accounts for pending acks; the same for every other call over every operation sequence. Tied to kcp.go by replaying malformed streams (field mutations to boundary values, truncations at every offset class, appended bogus segments, random bytes incl. > 1500-byte datagrams for the raw core) on the real core under recover(): a real panic where the model says Ok, or vice versa, is a disagreement.",
-    "level_note": K.TRUST + " The FEC decoder's part (decode total for every 6..mtuLimit-byte packet; at most maxShardSets+1 groups of fewer than dataShards packets after ANY packet sequence, forged ids included) is proved in coq/fec/C05fec.v and replayed against the real decoder; the session/listener gate is the gate engine's (C06); unbounded heap growth outside the modelled queues (Go runtime, sync.Pool) is not exhibited.",
+    "level_note": K.TRUST + " The FEC decoder's part (decode total for every 6..mtuLimit-byte packet; at most maxShardSets+1 groups of fewer than dataShards packets after ANY packet sequence, forged ids included) is proved in coq/fec/C05fec.v and replayed against the real decoder; the session/listener receive path BEHIND the gate (FEC demultiplexer, recovered-shard size strip, OOB, listener conv/sn peek) is modelled with Go's faults explicit in coq/frame/Input.v, proved total (C05sess.v) and exercised with authentic-but-malformed datagrams on real sessions and listeners; the gate itself is C06; unbounded heap growth outside the modelled queues (Go runtime, sync.Pool) is not exhibited.",
 }
 OBLIGATIONS = ["c05_input_total", "c05_never_panics", "c05_bounded_state", "c05_acklist", "c05_flush_empties_acklist"]
 RELEVANT = K.PANICS | K.RESULTS | {"rq", "rb", "al", "rnxt"}
 
 
+SESS_OBLIGATIONS = ["c05_sess_input_total", "c05_recovered_total", "c05_packet_input_total", "c05_listener_peek_total"]
 FEC_OBLIGATIONS = ["c05_fec_decode_total", "c05_fec_bounded", "c05_fec_bounded_inv"]
 
 
@@ -34,6 +35,20 @@ def run(ctx):
     ctx.coverage["trusted_base"] = core_cov.get("trusted_base", []) + [t for t in fec_cov.get("trusted_base", []) if t.startswith("Print Assumptions")]
     ctx.coverage.setdefault("theorems", {}).update(fec_cov.get("theorems", {}))
     V.merge_report(ctx, rep, summ)
+    fec_done = dict(ctx.coverage)
+    # the session / listener part: authentic (gate-passing) but malformed content behind the gate
+    ctx.prove("frame", "C05sess.v", SESS_OBLIGATIONS)
+    sess_cov = dict(ctx.coverage)
+    rep2, _ = V.harness_report(ctx, "^TestVerifC05Sess$|^TestVerifFrameChild$", "C05sess.report.json", files=["frame_test.go"])
+    summ2 = V.driver_compare(ctx, "frame", ["frame_model"], "frame_driver", "C05sess.log",
+                             "sess.go receive path behind the gate vs coq/frame/Input.v on authentic malformed datagrams")
+    ctx.coverage = fec_done
+    ctx.coverage["obligations"] = fec_done.get("obligations", 0) + sess_cov.get("obligations", 0)
+    ctx.coverage["discharged"] = fec_done.get("discharged", 0) + sess_cov.get("discharged", 0)
+    ctx.coverage["checker_cmd"] = fec_done.get("checker_cmd", "") + " ; " + sess_cov.get("checker_cmd", "")
+    ctx.coverage["trusted_base"] = fec_done.get("trusted_base", []) + [t for t in sess_cov.get("trusted_base", []) if t.startswith("Print Assumptions")]
+    ctx.coverage.setdefault("theorems", {}).update(sess_cov.get("theorems", {}))
+    V.merge_report(ctx, rep2, summ2)
     ctx.coverage["rule"] = ("two-endpoint histories in which 8-45 % of deliveries are replaced by a malformed variant of a captured datagram or random bytes "
                             "(lengths 0,1,11,12,19,20,23,24,25,47..1500 and 1524..4096); non-trivial = at least one malformed datagram was fed")
     ctx.assumptions += ["byte strings consist of bytes (0..255)"]
